@@ -118,16 +118,15 @@ Definition tc_simple (strict : bool) (i : instr) (s : sty) : option sty :=
              | k :: TMap k' v :: r => if ty_eqb k k' && comparable k then Some (TOption v :: r) else None
              | _ => None
              end
-  | I_UPDATE => if strict then None else
-                match s with
-                | k :: TBool :: TSet k' :: r => if ty_eqb k k' then Some (TSet k' :: r) else None
-                | k :: TOption v :: TMap k' v' :: r => if ty_eqb k k' && ty_eqb v v' then Some (TMap k' v' :: r) else None
+  | I_UPDATE => match s with
+                | k :: TBool :: TSet k' :: r => if ty_eqb k k' && comparable k then Some (TSet k' :: r) else None
+                | k :: TOption v :: TMap k' v' :: r =>
+                    if ty_eqb k k' && ty_eqb v v' && comparable k then Some (TMap k' v' :: r) else None
                 | _ => None
                 end
-  | I_GET_AND_UPDATE => if strict then None else
-                        match s with
+  | I_GET_AND_UPDATE => match s with
                         | k :: TOption v :: TMap k' v' :: r =>
-                            if ty_eqb k k' && ty_eqb v v' then Some (TOption v' :: TMap k' v' :: r) else None
+                            if ty_eqb k k' && ty_eqb v v' && comparable k then Some (TOption v' :: TMap k' v' :: r) else None
                         | _ => None
                         end
   | I_DROP _ | I_DUP _ | I_DIG _ | I_DUG _ => shuffle i s
